@@ -43,7 +43,7 @@ check(state_key(vars(a), []) != kb, 'cached lazy attribute / dropped statistics 
 b._bkg_stats = None
 check(state_key(vars(b), []) != kb, 'hidden field _bkg_stats not visible in the key')
 for kind, c in [('psf', c09.PSF_CONFIGS[2]), ('psf', c09.PSF_CONFIGS[6]), ('finder', c09.SF_CONFIGS[2]),
-                ('ellipse', {'geometry': True, 'ncalls': 4}), ('localbkg', {}), ('gridded', {}),
+                ('ellipse', {'geometry': 'preset'}), ('localbkg', {}), ('gridded', {}),
                 ('profile', c09.PROF_CONFIGS[2]), ('aperture', {'cls': 'EllipticalAnnulus'})]:
     sysm = c09.make_system(kind, c, 0)
     st1, st2 = sysm.initial(), sysm.initial()
@@ -116,6 +116,95 @@ for leak in (False, True):
     else:
         check(keys == [], f'toy without leak reports {keys}')
         check(acc.transitions > 0 and len(acc.state_keys) >= 2, 'toy exploration vacuous')
+
+
+
+# (d) exceptional exits: a per-call override that is restored on the normal exit only ---------------
+class Toy2:
+    """call(x, boost) multiplies by gain; boost overrides gain for this call only.  ``leak`` names the exit on
+    which the restore is forgotten: 'empty' (x == 0 -> early return None) or 'raise' (x < 0 -> ValueError)."""
+
+    def __init__(self, leak):
+        self.gain = 2.0
+        self.leak = leak
+
+    def __call__(self, x, boost=False):
+        saved = self.gain
+        if boost:
+            self.gain = 5.0
+        if x == 0:
+            if self.leak != 'empty':
+                self.gain = saved
+            return None
+        if x < 0:
+            if self.leak != 'raise':
+                self.gain = saved
+            raise ValueError('negative')
+        out = x * self.gain
+        self.gain = saved
+        return out
+
+
+class Toy2System(CallSystem):
+    name = 'Toy2'
+
+    def __init__(self, leak, xs):
+        super().__init__()
+        self.leak, self.xs = leak, xs
+
+    def make(self):
+        return Toy2(self.leak)
+
+    def calls(self):
+        return [('call', x, b) for x in self.xs for b in (False, True)]
+
+    def config(self, obj):
+        return {'gain': obj.gain}
+
+    def expected_invalid(self, op):
+        return op[1] < 0
+
+    def do(self, obj, op):
+        return obj(op[1], boost=op[2])
+
+
+for leak, want in (('empty', 'config-changed|Toy2.gain:after-empty-result'), ('raise', 'config-changed|Toy2.gain:after-raised'),
+                   (None, None)):
+    # an alphabet of normal requests only cannot see the leak ...
+    acc = Acc()
+    explore(Toy2System(leak, [1.0, 3.0]), 2, acc, extra={'sys': 'toy2'})
+    check(not acc.violations, f'toy2 leak={leak}: normal-only alphabet reports {sorted({v["key"] for v in acc.violations})}')
+    # ... the alphabet with one request per exit class does, under a key that names the exit
+    acc = Acc()
+    sysm = Toy2System(leak, [1.0, 0.0, -1.0])
+    explore(sysm, 2, acc, extra={'sys': 'toy2'})
+    keys = sorted({v['key'] for v in acc.violations})
+    if leak:
+        check(keys == ['call-differs-from-fresh|Toy2.call:dirty=gain', want], f'toy2 leak={leak} keys: {keys}')
+    else:
+        check(keys == [], f'toy2 without leak reports {keys}')
+    c = sysm.counters
+    check(c.get('calls_exit_raised', 0) > 0 and c.get('calls_exit_empty-result', 0) > 0 and c.get('calls_exit_normal', 0) > 0,
+          f'toy2: exit classes not counted: {c}')
+    if leak:
+        check(c.get('calls_straight_after_exit_' + ('raised' if leak == 'raise' else 'empty-result'), 0) > 0,
+              f'toy2 leak={leak}: no request executed straight after the exceptional exit: {c}')
+
+# every CallSystem alphabet of the module holds at least one request that leaves by an exceptional exit on a
+# FRESH object (measured), and the Ellipse alphabet reaches all four ways out of fit_image
+for kind, c in [('psf', c09.PSF_CONFIGS[0]), ('psf', c09.PSF_CONFIGS[4]), ('finder', c09.SF_CONFIGS[0]),
+                ('finder', c09.SF_CONFIGS[6]), ('ellipse', {'geometry': 'default'}), ('ellipse', {'geometry': 'preset'}),
+                ('localbkg', {})]:
+    sysm = c09.make_system(kind, c, 0)
+    tags = set()
+    for op in sysm.calls():
+        if kind == 'psf' and not (op[1] == 'Z' or sysm.expected_invalid(op)):
+            continue        # ordinary (slow) fits are not executed here
+        if kind == 'ellipse' and not (op[0] == 'fit_image' and (op[1] in ('nofit', 'raise') or op[2].startswith('fix_all'))):
+            continue
+        tags.add(sysm.exit_tag(op, sysm.fresh(op)))
+    need = {'ellipse': {'raised', 'everything-fixed', 'no-meaningful-fit'}}.get(kind, {'raised', 'empty-result'})
+    check(need <= tags, f'{kind} {c}: exit classes reached on a fresh object {sorted(tags)}, wanted {sorted(need)}')
 
 if fails:
     print('FAIL')
